@@ -216,6 +216,8 @@ theorem C14_batchDeleteIds_exact (hts : Tenants ts) {s : S} (hi : Inv ts s) {t :
 theorem C14_batchDeleteFilter_exact (parse : String → Option Nat) (hts : Tenants ts) {s : S} (hi : Inv ts s)
     {t : Tn} (ht : t ∈ ts) (f : Filter) (ns : String) : Inv ts (Srv.batchDeleteFilter parse s t f ns).1 := by
   unfold Srv.batchDeleteFilter
+  split
+  · exact hi
   simp only
   apply inv_after_deleteMany hts hi ht
   intro g hg d hd
